@@ -10,17 +10,65 @@ set_option linter.unusedSectionVars false
 namespace LL
 open Ak
 
-theorem handle_keeps_parser (st : Option Parser) (line : String)
-    (h1 : ∀ rest, Ak.Proto.splitWs line ≠ "reset" :: rest) (h2 : ∀ args, Ak.Proto.splitWs line ≠ "g" :: args) :
+theorem handle_keeps_state (st : Drv.DState) (line : String)
+    (h1 : ∀ rest, Ak.Proto.splitWs line ≠ "reset" :: rest) (h2 : ∀ args, Ak.Proto.splitWs line ≠ "g" :: args)
+    (h3 : ∀ k, Ak.Proto.splitWs line ≠ ["use", k]) :
     (Drv.handle st line).1 = st := by
   unfold Drv.handle
   split
   · rename_i rest heq; exact absurd heq (h1 rest)
   · rename_i args heq; exact absurd heq (h2 args)
+  · rename_i k heq; exact absurd heq (h3 k)
+  · split <;> rfl
   · split <;> rfl
   · split <;> rfl
   · split <;> rfl
   · rfl
+
+theorem handleG_slots (st : Drv.DState) (args : List String) :
+    ∃ new, (Drv.handleG st args).1.slots = st.slots ++ new := by
+  unfold Drv.handleG
+  split
+  · rename_i T seqs inp _
+    unfold Drv.addResult
+    cases constructG T inp with
+    | ok P => exact ⟨[(P, seqs)], rfl⟩
+    | error e => exact ⟨[], by simp⟩
+  · exact ⟨[], by simp⟩
+
+/-- no request except `reset` alters or removes an existing parser object: the earlier parsers of a
+case stay exactly what their own constructor call made them, whatever is constructed or parsed later -/
+theorem handle_slots_prefix (st : Drv.DState) (line : String)
+    (h1 : ∀ rest, Ak.Proto.splitWs line ≠ "reset" :: rest) :
+    ∃ new, (Drv.handle st line).1.slots = st.slots ++ new := by
+  unfold Drv.handle
+  split
+  · rename_i rest heq; exact absurd heq (h1 rest)
+  · exact handleG_slots st _
+  · split <;> exact ⟨[], by simp⟩
+  · split <;> exact ⟨[], by simp⟩
+  · split <;> exact ⟨[], by simp⟩
+  · split <;> exact ⟨[], by simp⟩
+  · split <;> exact ⟨[], by simp⟩
+  · exact ⟨[], by simp⟩
+
+/-- without templates `constructG` is `construct` -/
+theorem createProdsT_none : ∀ (l : List (List Char × List (List (List Char)))) (n : Nat) (acc : Prods Sym),
+    createProdsT Tmpl.none n l acc = createProds n l acc
+  | [], n, acc => by simp [createProdsT, createProds]
+  | (s, alts) :: rest, n, acc => by
+    simp only [createProdsT, createProds, Tmpl.none, List.not_mem_nil, not_false_eq_true, true_and]
+    split
+    · rfl
+    · split
+      · rfl
+      · split
+        · rfl
+        · exact createProdsT_none rest _ _
+
+theorem constructG_none (inp : CtorIn) : constructG Tmpl.none inp = construct inp := by
+  unfold constructG construct
+  simp only [createProdsT_none]
 
 theorem parseFrom_eq (P : Parser) (s : List Char) (raw : List (List Char × List Char)) (fuel : Nat)
     (hs : parseSym s ∈ P.prods.map (·.1)) :
